@@ -115,10 +115,18 @@ def h_roundtrip(nr, nc, idk, with_md, concrete_values=False):
         return
     # ---- read the very same text back
     form = pick(['list-of-lines', 'handle'], 'input-form')
+    via = pick(['from_tsv', 'parse_biom_table'], 'reader')
     in_lines = [l + '\n' for l in lines]
     src = in_lines if form == 'list-of-lines' else (T.SFile(in_lines) if b.mode == 'sym' else __import__('io').StringIO(''.join(in_lines)))
     proc = (lambda x: [e_.strip() for e_ in x.split(';')])
-    t2, e = call(lambda: b.Table.from_tsv(src, None, None, proc if with_md else (lambda x: x)))
+    if via == 'from_tsv':
+        t2, e = call(lambda: b.Table.from_tsv(src, None, None, proc if with_md else (lambda x: x)))
+    else:
+        # the generic entry point: falls through HDF5 -> JSON -> TSV; metadata comes back unprocessed (identity function)
+        from checks.c14 import install_json_stub
+        P = install_json_stub()
+        proc = (lambda x: x)
+        t2, e = call(lambda: P.parse_biom_table(src))
     if e is not None:
         all_zero = not any(is_sym(x) or x != 0 for r in a.dense for x in r)
         fail('tsv:read-raised', f"{type(e).__name__}: {e}"[:160], all_zero=int(all_zero), **sig)
@@ -126,8 +134,10 @@ def h_roundtrip(nr, nc, idk, with_md, concrete_values=False):
     exp = a.copy()
     exp.samp_md = None
     exp.type = None
-    if with_md:
+    if with_md and via == 'from_tsv':
         exp.obs_md = [{'Consensus Lineage': [x.strip() for x in '; '.join(m['taxonomy']).strip().split(';')]} for m in a.obs_md]
+    elif with_md:
+        exp.obs_md = [{'Consensus Lineage': '; '.join(m['taxonomy']).strip()} for m in a.obs_md]
     same_table('tsv:roundtrip', observe(t2), exp, **sig)
     coherent('tsv:roundtrip:coherent', t2, **sig)
 
